@@ -101,9 +101,13 @@ func cmdAllotScale(args []string) {
 		o := runParsed(context.Background(), p, vars, caseStore(c.ID, c.Bal, c.Meta), false)
 		equal := o.St == "ok" && len(o.Post) == len(er.outcome.Post)
 		bigPost := []any{}
+		positive := true // every posting of the big run: strictly positive, in the statement's asset, between named accounts
 		if o.St == "ok" {
 			for j, po := range o.Post {
 				bigPost = append(bigPost, []any{po.Source, po.Destination, po.Amount.String(), po.Asset})
+				if po.Amount == nil || po.Amount.Sign() <= 0 || po.Asset != asset || po.Source == "" || po.Destination == "" || po.Source == "<kept>" || po.Destination == "<kept>" {
+					positive = false
+				}
 				if equal {
 					sp := er.outcome.Post[j]
 					want := new(big.Int).Mul(U, sp.Amount)
@@ -114,7 +118,7 @@ func cmdAllotScale(args []string) {
 			}
 		}
 		line := J{"e": "scale", "n": cnt, "id": cnt, "text": c.Text, "factor": U.String(), "small": postingsToJSON(er.outcome.Post), "big": bigPost, "st": o.St, "equal": equal,
-			"rawvars": c.RawVars}
+			"rawvars": c.RawVars, "positive": positive}
 		lw.write(line)
 		if len(samples) < 2 && len(o.Post) >= 2 {
 			samples = append(samples, line)
